@@ -68,6 +68,11 @@ CLAIMS.update({
              note="crash point = prefix of program-order writes; OS write-back not modelled",
              technique="Coq proof over generated write order and header-slice users + truncation sweep of real files against the complete file"),
 })
+CLAIMS.update({
+ 'C12': dict(text="Coq theorems for every well-formed 2-bit default-layout source of any size, over the re-blocker as GENERATED from convert_to_adv_sgz (asserts, loop bounds, unit counts, seeks, slices, header patches, footer writes): every read lies inside the source data section (no short read, the staging buffer never shrinks); the bytes at unit_index3 of the 64x64x4 output are the source unit at unit_index3 of the 4x4x1024 input for every unit holding a real voxel, zero otherwise, so every real voxel has the same provenance in both files; only header bytes 44..59 change, the output header is well-formed and states the data section actually written; the footer is the source's arrays at the reader's stride; unsupported inputs raise before anything is written.",
+             note="bytearray splice semantics and file reads hand-modelled; footer array contents abstract",
+             technique="Coq proof (mixed-radix index arithmetic over splices) over generated re-blocker + byte-for-byte unit correspondence + read-method oracle"),
+})
 REASONS = {}
 DEFAULT_REASON = "not yet covered by a theorem in this development (work in progress; will be claimed when its Props file exists)"
 
